@@ -244,6 +244,7 @@ def run_real(scn, h, cis):
     finally:
         p._map_guard = False
     second = None
+    drv.first_deviated, drv.first_cis = drv.deviated, list(drv.real_cis)
     if scn.get('second_run') and outcome in ('ok', 'poolerror') and any(sw.st == 'run' for sw in drv.workers.values()):
         # the pool is reusable: a later run() must return results of ITS inputs only (no bookkeeping left behind)
         n2 = scn['n'] or 2
@@ -479,12 +480,12 @@ def run(prop, tier, replay=None):
             n_paths += 1
             mo = 'hang' if m_outcome == 'livelock' else m_outcome
             ro = obs['outcome'].split(':')[0]
-            if mo == 'hang' and ro == 'hang' and drv.real_cis[:len(cis)] == cis:
+            if mo == 'hang' and ro == 'hang' and drv.first_cis[:len(cis)] == cis:
                 pass
-            elif drv.deviated or ro != mo or (mo in ('ok', 'poolerror') and obs['ret'] != _tla(m_ret)):
+            elif drv.first_deviated or ro != mo or (mo in ('ok', 'poolerror') and obs['ret'] != _tla(m_ret)):
                 if len(drift) < 4:
                     drift.append('%s: real Pool.run deviates from the TLC behaviour (model outcome %s ret %s; real outcome %s ret %s; '
-                                 'call-ins model %s real %s)' % (label, m_outcome, m_ret, obs['outcome'], obs['ret'], cis[:8], drv.real_cis[:8]))
+                                 'call-ins model %s real %s)' % (label, m_outcome, m_ret, obs['outcome'], obs['ret'], cis[:8], drv.first_cis[:8]))
                 meta[rid]['drift'] = True
 
     # 2b. code -> spec: REAL workers (thread/process/remote) with SIGKILLs and poison inputs; callback traces
